@@ -217,6 +217,30 @@ impl<'gc> Node<'gc> {
 pub struct Root<'gc> {
     pub r: [Option<NodeGc<'gc>>; 2],
     pub sets: [Option<DynamicRootSet<'gc>>; 2],
+    /// identity of this root value (a root value is destructed exactly once)
+    pub serial: u32,
+}
+thread_local! {
+    static ROOT_SERIAL: Cell<u32> = const { Cell::new(0) };
+    static ROOT_DROPS: RefCell<Vec<u32>> = const { RefCell::new(Vec::new()) };
+}
+pub fn new_root_serial() -> u32 {
+    ROOT_SERIAL.with(|c| {
+        c.set(c.get() + 1);
+        c.get()
+    })
+}
+/// Root values destructed more than once since the last call.
+pub fn take_root_double_drops() -> usize {
+    talloc::bypass(|| {
+        ROOT_DROPS.with(|d| {
+            let mut v = std::mem::take(&mut *d.borrow_mut());
+            let n = v.len();
+            v.sort();
+            v.dedup();
+            n - v.len()
+        })
+    })
 }
 unsafe impl<'gc> Collect<'gc> for Root<'gc> {
     fn trace<T: Trace<'gc>>(&self, cc: &mut T) {
@@ -238,6 +262,8 @@ thread_local! {
 /// asked whether the block is still allocated.
 impl<'gc> Drop for Root<'gc> {
     fn drop(&mut self) {
+        let serial = self.serial;
+        talloc::bypass(|| ROOT_DROPS.with(|d| d.borrow_mut().push(serial)));
         let mut bad = 0;
         for g in self.r.iter().flatten() {
             if talloc::addr_allocated((Gc::as_ptr(*g) as usize).wrapping_sub(1)) != Some(true) {
@@ -557,6 +583,11 @@ impl World {
         if talloc::errors_len() > 0 {
             let e = talloc::take_errors();
             viol!("alloc.error", "{}", e.join("; "));
+        }
+        if take_root_double_drops() > 0 {
+            // (reported before the dangling count: a second destruction of the root usually finds the heap gone)
+            let _ = take_root_drop_dangling();
+            viol!("once.double_drop", "the root value was destructed a second time");
         }
         let n = take_root_drop_dangling();
         if n > 0 {
